@@ -5,11 +5,13 @@ import (
 	"errors"
 	"fmt"
 	"net/http"
+	"strconv"
 	"sync"
 	"time"
 
 	"github.com/renbou/grpcbridge/bridgedesc"
 	"github.com/renbou/grpcbridge/grpcadapter"
+	"github.com/renbou/grpcbridge/internal/verifhook"
 	"github.com/renbou/grpcbridge/reflection"
 	"github.com/renbou/grpcbridge/routing"
 	"google.golang.org/grpc"
@@ -228,7 +230,8 @@ type aggregateWatcher struct {
 }
 
 func (a *aggregateWatcher) UpdateDesc(target *bridgedesc.Target) {
-	for _, w := range a.watchers {
+	for i, w := range a.watchers {
+		verifhook.Point("aggregate.update.member", target.Name, strconv.Itoa(i))
 		w.UpdateDesc(target)
 	}
 }
